@@ -26,16 +26,18 @@ type Result struct {
 
 // Interp interprets the handlers of package css.
 type Interp struct {
-	E      *Env
-	Pkg    *packages.Package
-	Vars   map[string]*pats.Var
-	funcs  map[string]*ast.FuncDecl
-	memo   map[string]*Result
-	stack  map[string]bool
+	E     *Env
+	Pkg   *packages.Package
+	Vars  map[string]*pats.Var
+	funcs map[string]*ast.FuncDecl
+	memo  map[string]*Result
+	stack map[string]bool
+	// Members: verified membership helpers f(x, list) / f(list, x) -> index of the string parameter
+	Members map[string]int
 }
 
 func NewInterp(e *Env, pkg *packages.Package, vars map[string]*pats.Var) *Interp {
-	in := &Interp{E: e, Pkg: pkg, Vars: vars, funcs: map[string]*ast.FuncDecl{}, memo: map[string]*Result{}, stack: map[string]bool{}}
+	in := &Interp{E: e, Pkg: pkg, Vars: vars, funcs: map[string]*ast.FuncDecl{}, memo: map[string]*Result{}, stack: map[string]bool{}, Members: map[string]int{}}
 	for _, f := range pkg.Syntax {
 		for _, d := range f.Decls {
 			if fd, ok := d.(*ast.FuncDecl); ok && fd.Recv == nil && fd.Body != nil {
@@ -83,13 +85,13 @@ type strT struct {
 
 // listT is a []string derived from the subject.
 type listT struct {
-	kind  string // split | splitvalues | singleton | sub | flatten | filter | multisplit
-	sep   string
-	src   *strT
-	from  int    // for sub: xs[from:]
-	base  *listT // for sub/flatten/filter
-	drop  string // filter: elements equal to drop are removed
-	desc  string
+	kind string // split | splitvalues | singleton | sub | flatten | filter | multisplit
+	sep  string
+	src  *strT
+	from int    // for sub: xs[from:]
+	base *listT // for sub/flatten/filter
+	drop string // filter: elements equal to drop are removed
+	desc string
 }
 
 type kwT struct{ words []string }
@@ -285,7 +287,9 @@ func (in *Interp) joinEnv(into, a, b *env, la, lb *relang.DFA) {
 	}
 }
 
-func (in *Interp) constString(e ast.Expr) (string, bool) { return pats.ConstString(in.Pkg.TypesInfo, e) }
+func (in *Interp) constString(e ast.Expr) (string, bool) {
+	return pats.ConstString(in.Pkg.TypesInfo, e)
+}
 
 func (in *Interp) decl(s *ast.DeclStmt, ev *env) {
 	gd, ok := s.Decl.(*ast.GenDecl)
@@ -576,8 +580,26 @@ func (in *Interp) call(c *ast.CallExpr, ev *env) any {
 		in.fail("unsupported string(...) conversion")
 	case "len":
 		return lenOf{arg(0)}
+	case "strings.Count":
+		// Count(x, sep) == k  ⇔  len(Split(x, sep)) == k+1 for a non-empty separator
+		s := str(0)
+		sep := cs(1)
+		if sep == "" {
+			in.fail("strings.Count with an empty separator")
+		}
+		return countOf{&listT{kind: "split", sep: sep, src: s, desc: fmt.Sprintf("Split(%s,%q)", s.desc, sep)}}
 	case "in":
 		return in.inCond(arg(0), arg(1), ev)
+	}
+	if si, ok := in.Members[name]; ok && len(c.Args) == 2 {
+		sv, okS := arg(si).(*strT)
+		if !okS {
+			in.fail("%s: the tested string is not derived from the value", name)
+		}
+		ev.note("membership helper " + name)
+		return in.inCond(&listT{kind: "singleton", src: sv, desc: "[]string{" + sv.desc + "}"}, arg(1-si), ev)
+	}
+	switch name {
 	case "recursiveCheck":
 		return in.recursive(arg(0), arg(1), ev)
 	}
@@ -599,6 +621,18 @@ func (in *Interp) call(c *ast.CallExpr, ev *env) any {
 			case "FindString":
 				s := str(0)
 				return findT{re: v.Pattern, of: s, name: rv.Name}
+			case "ReplaceAllString":
+				// R.ReplaceAllString(x, ""): same deletion as string(R.ReplaceAll([]byte(x), []byte{}))
+				s := str(0)
+				if k, ok := in.constString(c.Args[1]); !ok || k != "" {
+					in.fail("ReplaceAllString with a non-empty replacement")
+				}
+				M, err := relang.FromRegexp("^(?:"+v.Pattern+")$", in.E.A)
+				if err != nil {
+					in.fail("regexp %s: %v", rv.Name, err)
+				}
+				ev.note("ReplaceAllString-delete (over-approximated as insertion of matches)")
+				return &strT{pre: func(L *relang.DFA) *relang.DFA { return s.pre(in.E.InsertWords(L, M)) }, exact: false, desc: "del(" + rv.Name + "," + s.desc + ")"}
 			}
 			in.fail("unsupported regexp method %s", sel.Sel.Name)
 		}
@@ -627,6 +661,7 @@ func (in *Interp) complementIfExact(r *Result) *relang.DFA {
 }
 
 type lenOf struct{ of any }
+type countOf struct{ list *listT }
 type findT struct {
 	re, name string
 	of       *strT
@@ -821,6 +856,12 @@ func (in *Interp) compare(x *ast.BinaryExpr, ev *env) *cond {
 		in.fail("comparison with nil")
 	}
 	l, r := in.value(x.X, ev), in.value(x.Y, ev)
+	// strings.Count(x, sep) op const
+	if co, ok := l.(countOf); ok {
+		if k, ok := r.(int); ok {
+			return in.lenCond(co.list, x.Op, k+1, ev)
+		}
+	}
 	// len(list) op const
 	if lo, ok := l.(lenOf); ok {
 		k, ok := r.(int)
@@ -978,6 +1019,20 @@ func (in *Interp) rangeLoop(s *ast.RangeStmt, ev *env, cur *relang.DFA) (T, F, N
 					if eb, ok := ifs.Else.(*ast.BlockStmt); ok && len(eb.List) == 1 {
 						d2, a2, sp2, ok2 := appendOf(eb.List[0])
 						lc, isLen := ast.Unparen(be.X).(*ast.CallExpr)
+						// strings.Count(x, sep) == 1 is len(strings.Split(x, sep)) == 2
+						if isLen && in.callName(lc) == "strings.Count" && len(lc.Args) == 2 && ok2 && d2 == dst && !sp2 && isIdent(a2, x) && isIdent(lc.Args[0], x) {
+							if one, isOne := in.value(be.Y, ev).(int); isOne && one == 1 {
+								sp3, isSp3 := ast.Unparen(arg).(*ast.CallExpr)
+								if isSp3 && in.callName(sp3) == "strings.Split" && isIdent(sp3.Args[0], x) {
+									k1, okA := in.constString(lc.Args[1])
+									k3, okB := in.constString(sp3.Args[1])
+									if okA && okB && k1 == k3 && len([]rune(k1)) == 1 && lv.kind == "split" && lv.sep == " " {
+										ev.vars[dst] = &listT{kind: "flatten", base: lv, sep: k1, desc: fmt.Sprintf("flatten(%s,%q)", lv.desc, k1)}
+										return in.E.Empty(), in.E.Empty(), cur
+									}
+								}
+							}
+						}
 						if ok2 && d2 == dst && !sp2 && isIdent(a2, x) && isLen && in.callName(lc) == "len" && len(lc.Args) == 1 {
 							sp1, isSp1 := ast.Unparen(lc.Args[0]).(*ast.CallExpr)
 							sp3, isSp3 := ast.Unparen(arg).(*ast.CallExpr)
